@@ -1,6 +1,9 @@
 import Mouette.Lemmas.CutSourceBridge2
 import Mouette.Lemmas.CutSourceBridge3
 import Mouette.Lemmas.DualBridge
+import Mouette.Lemmas.CuttingForest
+import Mathlib.Data.List.Perm.Basic
+import Mathlib.Data.List.Nodup
 import Mouette.Props.C16
 import Mouette.Props.C09
 /-!
@@ -248,6 +251,44 @@ theorem build_stages_source {nV : Nat} {F : List Face} {E : List (Nat × Nat)} {
             · rw [map_loop_source, (imapLoop_bridge _).1]; exact hmf
             · rw [order_verts_source, (cornerLoop_bridge F).2.1]
 
+/-- round 6 — the `duplicate_vertices` / `ref_vertex` bookkeeping as written (`dup[v] = {imap[uf.find(u)] for u in dup[v]}`, then
+`ref_vertex[u] = v` for `u in dup[v]`, `v` in the order of the dict) produces exactly the writes of the model: with the state
+`s2` left by the find loop, the translated loops give `o.ref`. Together with `build_stages_source` EVERY stage of
+`_build_mesh_with_cuts` is now read from the source. (`dup[v]` before the first loop is the list of corners of `v`, which is
+what the corner numbering loop collects: `corner_loop_source`, `dup = zipIdx`.) -/
+theorem build_ref_source {nV : Nat} {F : List Face} {E : List (Nat × Nat)} {interior cut : List Nat} {o : Out}
+    (h : build nV F (uncutPairs E interior cut) = .ok o) :
+    ∃ s1 s2, C16.unionLoop F E cut (C16.cornerLoop F).faces interior (ufRange (3 * F.length)) = some s1 ∧
+      C16.findLoop s1 (C16.cornerLoop F).faces = some (s2, o.roots3) ∧
+      (C16.dupLoop s2 (C16.imapLoop o.roots3).imap (cornersOf (C16.cornerLoop F).verts) nV).map
+        (fun r => C16.refLoop r.2) = some o.ref := by
+  unfold build at h
+  simp only [] at h
+  split at h
+  · cases h
+  · rename_i ps hps
+    split at h
+    · cases h
+    · rename_i s2 faces1 hff
+      split at h
+      · cases h
+      · rename_i faces2 hmf
+        split at h
+        · cases h
+        · rename_i s3 rs hfa
+          split at h
+          · cases h
+          · rename_i ws hrw
+            injection h with h
+            subst h
+            refine ⟨applyUnions (ufRange (3 * F.length)) ps, s2, ?_, ?_, ?_⟩
+            · rw [union_loop_source, hps]; rfl
+            · rw [find_loop_source, (cornerLoop_bridge F).1]; exact hff
+            · rw [dupLoop_bridge, (imapLoop_bridge _).1, (cornerLoop_bridge F).2.1]
+              simp only []
+              rw [hfa]
+              exact hrw
+
 /-! ## round 5: the dual Dijkstra of `_build_dual_tree_no_features`, as written
 
 `Generated/C16Dual.lean` is the body of `_build_dual_tree_no_features` read imperatively (initialisations, `while not
@@ -331,7 +372,195 @@ theorem dual_tree_spans_source {pop : Pop} (hpop : PopOK pop) {nF : Nat} (h0 : 0
     | some e => exact ⟨e, rfl⟩
     | none => rw [S.path_none f hs] at hp; cases hp
 
+/-- everything the Euler count needs about the translated dual tree, in one statement: an order of the visited faces (all
+`< nF`) in which every visited face other than face 0 has a tree edge `path[f] = e` joining it to an EARLIER visited face;
+and `path[f]` is only set for visited faces other than face 0 -/
+theorem dual_tree_structure_source {pop : Pop} (hpop : PopOK pop) {nF : Nat} (h0 : 0 < nF)
+    (hfd : ∀ g f, 0 ≤ fd g f) (hopp : ∀ a b g f, opp a b g = some f → f < nF) :
+    let s := (C16D.buildDualTreeNoFeatures pop (fuel (dualAdj E f2e forbidden opp fd) nF) nF E f2e forbidden opp fd).1
+    ∃ order : List Nat, order.Nodup ∧ (∀ f, f ∈ order ↔ s.visited f = true) ∧ (∀ f, f ∈ order → f < nF) ∧
+      (∀ f, f ∈ order → f ≠ 0 → ∃ e g, s.path f = some e ∧ g ∈ order ∧ order.idxOf g < order.idxOf f ∧
+        Joins E f2e forbidden opp e g f) ∧
+      (∀ f e, s.path f = some e → f ∈ order ∧ f ≠ 0) := by
+  intro s
+  have S := buildDualTree_sim E f2e forbidden opp fd pop nF
+  have F := final_run hpop (dualAdj_nonneg E f2e forbidden opp fd hfd) (dualAdj_wf E f2e forbidden opp fd hopp) h0
+  obtain ⟨v, b, order, I⟩ := F.reach
+  have hvis : ∀ f, f ∈ order ↔ s.visited f = true := by
+    intro f; show _ ↔ s.visited f = true; rw [S.visited]; exact (I.vis_iff f).symm
+  refine ⟨order, I.order_nodup, hvis, I.vis_lt, ?_, ?_⟩
+  · intro f hf hne
+    have hv : (run pop (dualAdj E f2e forbidden opp fd) nF 0).visited f = true := (I.vis_iff f).mpr hf
+    obtain ⟨du, hdu, _⟩ := I.vis_dist f hv
+    obtain ⟨g, hg⟩ := I.pred_some f du hne hdu
+    obtain ⟨hgv, _, _, hidx⟩ := I.pred_ok f g hg
+    cases hs : s.path f with
+    | none => rw [S.path_none f hs] at hg; cases hg
+    | some e =>
+      obtain ⟨g', hg', J⟩ := S.path_some f e hs
+      rw [hg] at hg'; injection hg' with hg'; subst hg'
+      exact ⟨e, g, rfl, (I.vis_iff g).mp hgv, hidx hv, J⟩
+  · intro f e hfe
+    obtain ⟨g, hg, _⟩ := S.path_some f e hfe
+    obtain ⟨_, hne, ⟨w, dp, _, _, hd⟩, _⟩ := I.pred_ok f g hg
+    exact ⟨(I.vis_iff f).mp (F.visited_of_dist hd), hne⟩
+
 end dual
+
+/-! ## round 6: χ = 1 on the source's own dual tree
+
+The cut mesh built from the complement of the edge set returned by the TRANSLATED `_build_dual_tree_no_features` (before
+pruning: `cut_edges = set(id_edges) − evisited`) has Euler characteristic 1, provided the dual graph is connected. "Forest
+edges are effective in any order" is obtained by counting (`effective_of_spanning_tree`): the tree has `F − 1` edges and
+unites all the faces, so each of the `F − 1` unions was effective, in whatever order `interior_edges` lists them. -/
+
+section euler
+open Mouette.PQ Mouette.Dijkstra Mouette.DualSrc
+
+/-- `opposite_face` / `face_to_edges` agree with the half-edge table of the faces: an edge that joins `g` to `f` is a valid
+interior edge whose two half edges lie in `g` and `f` (hypothesis on the connectivity queries, C01) -/
+def LinkOK (F : List Face) (E : List (Nat × Nat)) (interior : List Nat) (f2e : Nat → List Nat) (forbidden : Nat → Bool)
+    (opp : Nat → Nat → Nat → Option Nat) : Prop :=
+  ∀ e g f, Joins E f2e forbidden opp e g f → e < E.length ∧ e ∈ interior ∧
+    ∃ fp, FacesOf F (E.getD e (0, 0)) fp ∧ ((fp.1 = g ∧ fp.2 = f) ∨ (fp.1 = f ∧ fp.2 = g))
+
+theorem euler_characteristic_of_source_dual_tree_partial {nV : Nat} {F : List Face} {E : List (Nat × Nat)}
+    {interior : List Nat} {o : Out} (f2e : Nat → List Nat) (forbidden : Nat → Bool)
+    (opp : Nat → Nat → Nat → Option Nat) (fd : Nat → Nat → Rat) {pop : Pop}
+    (sp : Simple E) (tri : AllTri F) (hpop : PopOK pop) (h0 : 0 < F.length)
+    (hfd : ∀ g f, 0 ≤ fd g f) (hopp : ∀ a b g f, opp a b g = some f → f < F.length)
+    (link : LinkOK F E interior f2e forbidden opp)
+    (conn : ∀ f, f < F.length → ∃ l W, PathW (dualAdj E f2e forbidden opp fd) 0 f l W)
+    (nd : interior.Nodup) (valid : ∀ e, e ∈ interior → e < E.length) :
+    let ev := (C16D.buildDualTreeNoFeatures pop (fuel (dualAdj E f2e forbidden opp fd) F.length) F.length E f2e forbidden
+      opp fd).2
+    let uncut := uncutPairs E interior (cutEdges0 E.length ev)
+    ∀ (_ : build nV F uncut = .ok o) (ps : List (Nat × Nat))
+      (_ : unionPairs (halfEdges F) (cornerFaces F) uncut = some ps)
+      (_ : ∀ a b, a < 3 * F.length → b < 3 * F.length → sideKey o a = sideKey o b →
+        a = b ∨ (a, b) ∈ twins ps ∨ (b, a) ∈ twins ps),
+      uncut.length + 1 = F.length ∧ effCount (ufRange (3 * F.length)) ps = ps.length ∧
+      (o.pos.length : Int) - (edgeCount o F.length : Int) + (F.length : Int) = 1 := by
+  intro ev uncut h ps hps sep
+  set nF := F.length with hnF
+  set s := (C16D.buildDualTreeNoFeatures pop (fuel (dualAdj E f2e forbidden opp fd) nF) nF E f2e forbidden opp fd).1 with hs
+  obtain ⟨order, ond, ovis, olt, otree, opath⟩ := dual_tree_structure_source E f2e forbidden opp fd hpop h0 hfd hopp
+  -- every face is visited
+  have hall : ∀ f, f < nF → f ∈ order := by
+    intro f hf
+    have := (dual_tree_spans_source E f2e forbidden opp fd hpop h0 hfd hopp f)
+    obtain ⟨hiff, himp⟩ := this
+    exact (ovis f).mpr (himp (hiff.mpr (conn f hf))).1
+  -- membership in the returned set
+  have hev : ∀ e, e ∈ ev ↔ ∃ f, f < nF ∧ s.path f = some e :=
+    fun e => dual_tree_result_source E f2e forbidden opp fd pop _ nF e
+  -- the tree edge of a face determines the face
+  have pinj : ∀ f f' e, s.path f = some e → s.path f' = some e → f = f' := by
+    intro f f' e h1 h2
+    obtain ⟨hf, hf0⟩ := opath f e h1
+    obtain ⟨hf', hf0'⟩ := opath f' e h2
+    obtain ⟨e1, g, hp1, hg, hlt, J⟩ := otree f hf hf0
+    obtain ⟨e2, g', hp2, hg', hlt', J'⟩ := otree f' hf' hf0'
+    rw [h1] at hp1; injection hp1 with hp1; subst hp1
+    rw [h2] at hp2; injection hp2 with hp2; subst hp2
+    obtain ⟨_, _, fp, ⟨i1, j1, i2, j2, d1, d2⟩, c⟩ := link e g f J
+    obtain ⟨_, _, fp', ⟨i1', j1', i2', j2', d1', d2'⟩, c'⟩ := link e g' f' J'
+    rw [d1] at d1'; rw [d2] at d2'
+    have e1 : fp.1 = fp'.1 := by injection d1' with d; exact (Prod.mk.inj d).1
+    have e2 : fp.2 = fp'.2 := by injection d2' with d; exact (Prod.mk.inj d).1
+    rcases c with ⟨a1, a2⟩ | ⟨a1, a2⟩ <;> rcases c' with ⟨b1, b2⟩ | ⟨b1, b2⟩
+    · rw [← a2, ← b2, e2]
+    · -- f' = g and g' = f : both orders cannot hold
+      have hfg : f' = g := by rw [← b1, ← a1, e1]
+      have hgf : g' = f := by rw [← b2, ← a2, e2]
+      subst hfg; subst hgf
+      omega
+    · have hfg : g' = f := by rw [← b1, ← a1, e1]
+      have hgf : f' = g := by rw [← b2, ← a2, e2]
+      subst hfg; subst hgf
+      omega
+    · rw [← a1, ← b1, e1]
+  -- the ids of the uncut edges: exactly the returned set
+  set ids := interior.filter (fun e => !(cutEdges0 E.length ev).contains e) with hids
+  have huncut : uncut = ids.map (fun e => E.getD e (0, 0)) := rfl
+  have ids_nd : ids.Nodup := nd.filter _
+  have ids_mem : ∀ e, e ∈ ids ↔ e ∈ ev := by
+    intro e
+    rw [hids, List.mem_filter]
+    constructor
+    · rintro ⟨hi, hc⟩
+      have hc' : e ∉ cutEdges0 E.length ev := by simpa using hc
+      by_contra hne
+      exact hc' ((Props.C16.cutEdges0_mem _ _ e).mpr ⟨valid e hi, hne⟩)
+    · intro he
+      obtain ⟨f, hf, hp⟩ := (hev e).mp he
+      obtain ⟨hfo, hf0⟩ := opath f e hp
+      obtain ⟨e', g, hp', _, _, J⟩ := otree f hfo hf0
+      rw [hp] at hp'; injection hp' with hp'; subst hp'
+      obtain ⟨_, hint, _⟩ := link e g f J
+      refine ⟨hint, ?_⟩
+      have : e ∉ cutEdges0 E.length ev := fun hc => ((Props.C16.cutEdges0_mem _ _ e).mp hc).2 he
+      simpa using this
+  -- F − 1 of them
+  set tl := (List.range' 1 (nF - 1)).map (fun f => (s.path f).getD 0) with htl
+  have tl_some : ∀ f, f ∈ List.range' 1 (nF - 1) → s.path f = some ((s.path f).getD 0) := by
+    intro f hf
+    obtain ⟨h1, h2⟩ := List.mem_range'_1.mp hf
+    obtain ⟨e, g, hp, _⟩ := otree f (hall f (by omega)) (by omega)
+    rw [hp]; rfl
+  have tl_nd : tl.Nodup := by
+    apply List.Nodup.map_on _ (List.nodup_range' 1)
+    intro f hf f' hf' heq
+    have a := tl_some f hf
+    have b := tl_some f' hf'
+    rw [heq] at a
+    exact pinj f f' _ a b
+  have tl_mem : ∀ e, e ∈ tl ↔ e ∈ ids := by
+    intro e
+    rw [ids_mem, hev, htl, List.mem_map]
+    constructor
+    · rintro ⟨f, hf, rfl⟩
+      obtain ⟨h1, h2⟩ := List.mem_range'_1.mp hf
+      exact ⟨f, by omega, tl_some f hf⟩
+    · rintro ⟨f, hf, hp⟩
+      obtain ⟨_, hf0⟩ := opath f e hp
+      exact ⟨f, List.mem_range'_1.mpr ⟨by omega, by omega⟩, by rw [hp]; rfl⟩
+  have hlen : ids.length = nF - 1 := by
+    have := ((List.perm_ext_iff_of_nodup tl_nd ids_nd).mpr tl_mem).length_eq
+    rw [← this, htl]; simp
+  have tree_size : uncut.length + 1 = nF := by rw [huncut, List.length_map, hlen]; omega
+  -- the uncut pairs are distinct undirected edges
+  obtain ⟨und, unorev⟩ := uncut_pairs_distinct_source sp interior (cutEdges0 E.length ev) nd valid
+  have hne : ∀ ab, ab ∈ uncut → ab.1 ≠ ab.2 := by
+    intro ab hab heq
+    apply unorev ab hab ab hab
+    cases ab with
+    | mk a b => simp only [] at heq; subst heq; rfl
+  obtain ⟨fp, fplen, fpb, fpfaces, fpeff⟩ := corner_unions_effective_of_face_unions tri ps hps hne
+  -- the dual edges form a spanning tree: all face unions are effective
+  have feff : effCount (ufRange nF) fp = fp.length := by
+    apply effective_of_spanning_tree nF fp fpb (by rw [fplen]; exact tree_size) order 0 h0 hall
+    intro f hf hf0
+    obtain ⟨e, g, hp, hg, hlt, J⟩ := otree f hf hf0
+    refine ⟨g, hg, hlt, ?_⟩
+    have heids : e ∈ ids := (ids_mem e).mpr ((hev e).mpr ⟨f, olt f hf, hp⟩)
+    have hab : E.getD e (0, 0) ∈ uncut := by rw [huncut]; exact List.mem_map.mpr ⟨e, heids, rfl⟩
+    obtain ⟨q, hq, ⟨i1, j1, i2, j2, d1, d2⟩⟩ := forall₂_mem_left fpfaces _ hab
+    obtain ⟨_, _, fp0, ⟨i1', j1', i2', j2', d1', d2'⟩, c⟩ := link e g f J
+    rw [d1] at d1'; rw [d2] at d2'
+    have e1 : q.1 = fp0.1 := by injection d1' with d; exact (Prod.mk.inj d).1
+    have e2 : q.2 = fp0.2 := by injection d2' with d; exact (Prod.mk.inj d).1
+    rcases c with ⟨a1, a2⟩ | ⟨a1, a2⟩
+    · left; have : q = (g, f) := by cases q; simp only [] at e1 e2; rw [e1, e2, a1, a2]
+      rw [← this]; exact hq
+    · right; have : q = (f, g) := by cases q; simp only [] at e1 e2; rw [e1, e2, a1, a2]
+      rw [← this]; exact hq
+  have alleff := fpeff feff
+  obtain ⟨hR, hdisj⟩ := Props.C16.no_corner_starts_two_glued_sides tri uncut ps hps und unorev
+  exact ⟨tree_size, alleff, Props.C16.euler_characteristic_partial tri h ps hps tree_size alleff hR hdisj sep⟩
+
+end euler
+
 
 /-! ## non-vacuity: the extracted definitions, run -/
 
@@ -369,5 +598,10 @@ returned set is the single tree edge 10 (`path[1]`) -/
 example : (C16D.buildDualTreeNoFeatures PQ.pop 20 3 [] (fun g => if g = 0 then [10] else if g = 1 then [10, 11] else [11, 12])
     (fun _ => false) (fun _ _ g => if g = 0 then some 1 else if g = 1 then some 0 else none) (fun _ _ => 1)).2 = [10] := by
   decide +kernel
+
+/-- forest edges are effective in any order: a path 0-1-2 listed as (2,1),(0,1) -/
+example : effCount (ufRange 3) [(2, 1), (0, 1)] = 2 := by decide +kernel
+/-- the bookkeeping loops, run: two corners of vertex 7 with roots 5 and 5, `imap = {5: 0}` -/
+example : C16.refLoop [(7, [0, 0]), (8, [1])] = [(0, 7), (0, 7), (1, 8)] := by decide
 
 end Mouette.Props.C16Source
